@@ -177,6 +177,15 @@ def run(chk):
         acc = chk.run_impl([("taccess", [kind.encode(), t]) for t, _, _ in docs[::3]])
         for (t, exp, facts), a in zip(docs[::3], acc):
             check_access(chk, kind, t, exp, facts, a)
+        # the file-based parsers see what the reader-based ones see
+        if kind in ("dsc", "changes"):
+            fc = [("tdocfile", [kind.encode(), t]) for t, _, _ in docs[::5]]
+            fr = chk.run_impl(fc)
+            chk.record(kind + "-file-parsers", fc, fr, lambda c, r: r == "same")
+            for c, r in zip(fc, fr):
+                if r != "same":
+                    chk.violate({"kind": "property", "case": lib.show_case(c), "impl": r[:1500],
+                                 "explanation": "the file-based parser does not return what the reader-based parser returns for the same document"})
         # required fields of the .deb control file
         if kind in REQUIRED:
             miss = []
@@ -198,6 +207,13 @@ def run(chk):
     cases = [("tcontrol", [t]) for t, _, _ in docs]
     impl, model = chk.run_both(cases)
     chk.compare("debian-control", cases, impl, model)
+    fc = [("tdocfile", [b"control", t]) for t, _, _ in docs[::5]]
+    fr = chk.run_impl(fc)
+    chk.record("control-file-parser", fc, fr, lambda c, r: r == "same")
+    for c, r in zip(fc, fr):
+        if r != "same":
+            chk.violate({"kind": "property", "case": lib.show_case(c), "impl": r[:1500],
+                         "explanation": "ParseControlFile does not return what ParseControl returns for the same debian/control"})
     for c, i, (t, sexp, bexps) in zip(cases, impl, docs):
         if not i.startswith("ok <<"):
             chk.violate({"kind": "property", "case": lib.show_case(c), "impl": i[:600], "explanation": "a well-formed debian/control was rejected"}); continue
@@ -267,6 +283,10 @@ def check_access(chk, kind, text, exp, facts, a):
     case = ("taccess", [kind.encode(), text])
     if not a.startswith("ok"):
         chk.violate({"kind": "property", "case": lib.show_case(case), "impl": a[:400], "explanation": "accessors could not be evaluated on a well-formed document"}); return
+    if a.endswith(" Pure=F"):
+        chk.violate({"kind": "property", "case": lib.show_case(case), "impl": a[:800],
+                     "explanation": "evaluating the accessors changed the parsed document, or a second evaluation gave other answers (the parsed fields and the accessors no longer agree with the model afterwards)"})
+        return
     got = dict(kv.split("=", 1) for kv in split_record(a[3:]))
     want = {}
     if kind == "dsc":
